@@ -809,6 +809,12 @@ func (c *Ctx) scanRaceLogs(prefix, family string, idx int) {
 			}
 			c.Count("race_blocks", 1)
 			key := raceKey(blk)
+			if key == "? | ?" {
+				// neither access stack contains an otel frame: a race inside the harness itself (seen only
+				// in trials abandoned after a confirmed deadlock); never attributed to the library
+				c.Count("race_blocks_without_otel_frames", 1)
+				continue
+			}
 			c.violate(Violation{Class: "data-race", Key: key, Family: family, Index: idx, Detail: trimStack(blk)})
 		}
 		os.Remove(m)
